@@ -15,12 +15,12 @@ class C39(core.Prop):
     drivers = ["mc_peek"]
     ready = True
     max_workers = 6
-    sizes = {"quick": 400, "thorough": 20000}
+    sizes = {"quick": 300, "thorough": 20000}
     technique = ("property-based testing (Hypothesis): metamorphic relation on real kernel states - a pair of co-enabled transitions "
                  "that the checker declares independent must commute (both orders executable, same state fingerprint)")
     rule = ("Hypothesis-generated synchronisation programs (vf/syncgen.py, model-checker subset: mutexes incl. recursive and try_lock, "
             "semaphores, condition variables incl. timed waits, barriers, blocking mailbox put/get, MC_random; 2-5 actors, <=10 "
-            "operations each; 3 cases in 10 from mcprog.condvar_programs: 2-3 condition variables on 1-2 mutexes, waiters on different condvars, timed "
+            "operations each; 4 cases in 10 from mcprog.condvar_programs: 2-3 condition variables on 1-2 mutexes, waiters on different condvars, timed "
             "waits, signal/broadcast, lockers of the shared mutex; 2 in 10 from mcprog.shared_object_programs: every actor on the same mutex / "
             "semaphore / barrier / mailbox; 2 in 10 asynchronous comms with wait/test and iprobe) run by mc_peek the way an application runs under the checker; a generated schedule prefix p (each step "
             "picks one of the currently enabled actors) leads to a state s; for EVERY ordered pair (a, b) of actors enabled in s (and "
@@ -40,7 +40,7 @@ class C39(core.Prop):
     def strategy(self, tier):
         @st.composite
         def cases(draw):
-            which = draw(st.sampled_from(["cv", "cv", "cv", "shared", "shared", "comm", "comm", "sync", "sync", "sync"]))
+            which = draw(st.sampled_from(["cv", "cv", "cv", "cv", "shared", "shared", "comm", "comm", "sync", "sync"]))
             if which == "cv":          # several condvars on one mutex, waiters on different condvars, timed waits, notifiers, lockers
                 sc = draw(mcprog.condvar_programs())
             elif which == "shared":    # everybody on the same mutex / semaphore / barrier / mailbox
@@ -57,7 +57,7 @@ class C39(core.Prop):
             picks = draw(st.lists(st.tuples(st.integers(0, 5), st.integers(0, 2)), min_size=n, max_size=n))
             # lazy prefix: completions (WAIT, test) are postponed as long as another actor can move, so that several of them are
             # enabled together (two CONDVAR_WAIT, two MUTEX_WAIT, COMM_WAIT next to COMM_TEST...)
-            lazy = draw(st.sampled_from([0, 0, 1, 1, 1] if which == "cv" else [0, 0, 0, 1]))
+            lazy = draw(st.sampled_from([0, 1, 1, 1] if which == "cv" else [0, 0, 1]))
             return {"scenario": sc, "picks": [list(p) for p in picks], "lazy": lazy}
         return cases()
 
@@ -224,6 +224,11 @@ def _sc(objects, actors):
 
 
 FIXED = [
+    # two timed waits on two condition variables protected by ONE mutex, lazy prefix: both CONDVAR_WAIT end up enabled together
+    {"scenario": _sc({"mutex": [{"recursive": False}], "cond": [0, 0]},
+                     [[["lock", 0], ["cv_wait_for", 0, 1.0], ["unlock", 0]], [["lock", 0], ["cv_wait_for", 1, 1.0], ["unlock", 0]],
+                      [["lock", 0], ["notify_one", 0], ["unlock", 0]]]),
+     "picks": [[0, 0]] * 10, "lazy": 1},
     {"scenario": _sc({"mutex": [{"recursive": False}], "sem": [1]},
                      [[["lock", 0], ["sleep", 0.5], ["unlock", 0]], [["lock", 0], ["acquire", 0], ["unlock", 0]], [["acquire", 0], ["release", 0]]]),
      "picks": [[0, 0], [1, 0]]},
